@@ -37,7 +37,7 @@ CHECKS = {
         ref="5/C06"),
     "C07": dict(
         technique="TLC enumeration of macro programs from Macro.tla with the spec's expected captured strings as oracle; captured constants of the real tree trace-validated by TLC (WordSplit.tla)",
-        text="Macro.tla enumerates call-macro argument lists (40 segments incl. bracket groups, strings with commas/brackets, f-strings, keywords, invalid Python, comments/newlines in brackets x blanks x trailing comma x 8 hosts x followers), subprocess-macro bodies x 4 forms x paddings, and with-macro blocks (line trees up to 3-4 lines, nested indentation, blank/comment lines, 3 indentation units, nested in an if block, one-line form); the strings found in the real call_macro / enter_macro / subproc_* call must equal the model's expectation and the follower statement must parse as on its own.",
+        text="Macro.tla enumerates call-macro argument lists (46 segments incl. compatibility characters, bracket groups, strings with commas/brackets, f-strings, keywords, invalid Python, comments/newlines in brackets x blanks x trailing comma x 8 hosts x followers), subprocess-macro bodies x 4 forms x paddings, and with-macro blocks (line trees up to 3-4 lines, nested indentation, blank/comment lines, 3 indentation units, nested in an if block, one-line form); the strings found in the real call_macro / enter_macro / subproc_* call must equal the model's expectation and the follower statement - which may itself be a macro - must parse as on its own. In addition TokenSource.tla (cache / index / push-back / macro flags, the call-macro and the with-macro raw capture loops) is model-checked (IndexOK, PushbackAtMostOne, NoBlankDelivered, ExhaustionIsError, CaptureIsSlice, WithCaptureIsBlock, CacheAppendOnly, WithFlagClearedAtDedent) and every TLC behaviour over 18 synthetic raw token streams is replayed into the real Tokenizer class, state and captured text compared after every call.",
         note="Oracle is the model. Bounded by MaxArgs/MaxSegs/MaxLines per configuration. Two known findings (with! block starting with a comment; backtick/f-string in a subprocess-macro body).",
         ref="5/C07"),
     "C09": dict(
